@@ -185,16 +185,15 @@ class SimScheduler:
         self.stats["gets"] += 1
         self._depth += 1
         nested = self.mode == "threads" and threading.get_ident() != self._owner
-        old_trace = None
+        held = None
         if nested:
             # a compute issued from inside a task thread: run it atomically in that thread
-            old_trace = sys.gettrace()
-            sys.settrace(None)
+            held = _TASK_OF_THREAD.pop(threading.get_ident(), None)
         try:
             return self._get(dsk, keys, atomic=nested)
         finally:
-            if nested:
-                sys.settrace(old_trace)
+            if held is not None:
+                _TASK_OF_THREAD[threading.get_ident()] = held
             self._depth -= 1
 
     def _get(self, dsk, keys, atomic=False):
@@ -220,7 +219,11 @@ class SimScheduler:
             stack.extend(deps[k])
         ndeps = {k: len(deps[k]) for k in wanted}
         if self.mode == "threads" and not atomic:
-            return self._get_threads(graph, deps, wanted, ndeps, keys)
+            _monitoring_on(self._repo_prefix)
+            try:
+                return self._get_threads(graph, deps, wanted, ndeps, keys)
+            finally:
+                _monitoring_off(self._repo_prefix)
         remaining = set(wanted)
         done = set()
         store = [dict() for _ in range(self.n_workers)]  # worker -> key -> value
@@ -407,6 +410,90 @@ class SimScheduler:
             yield self
 
 
+# ---------------------------------------------------------------------------
+# Pre-emption seam of the `threads` model: sys.monitoring (PEP 669) LINE and INSTRUCTION
+# events, enabled *locally* on every code object of the repository for the duration of one
+# simulated computation.  (A first version used sys.settrace + frame.f_trace_opcodes; CPython
+# then instruments a code object only from its NEXT call on, so the very first call of every
+# function in a process saw no opcode events and one seed's schedule depended on what had run
+# before in that process - found by the replay-in-a-fresh-interpreter confirmation.)
+_MON = sys.monitoring
+_TOOL = 3
+_TASK_OF_THREAD = {}
+_REPO_CODES = {"prefix": None, "codes": []}
+_MON_READY = [False]
+
+
+def _walk_code(code, seen):
+    if code in seen:
+        return
+    seen.add(code)
+    for c in code.co_consts:
+        if hasattr(c, "co_code"):
+            _walk_code(c, seen)
+
+
+def _repo_code_objects(prefix):
+    """Every code object defined in modules under `prefix` (functions, methods, nested)."""
+    if _REPO_CODES["prefix"] == prefix:
+        return _REPO_CODES["codes"]
+    import types
+
+    seen = set()
+    for mod in list(sys.modules.values()):
+        f = getattr(mod, "__file__", None)
+        if not f or not os.path.realpath(f).startswith(prefix):
+            continue
+        for obj in list(vars(mod).values()):
+            objs = [obj]
+            if isinstance(obj, type) and getattr(obj, "__module__", None) == mod.__name__:
+                objs = list(vars(obj).values())
+            for o in objs:
+                if isinstance(o, property):
+                    cand = [o.fget, o.fset, o.fdel]
+                elif isinstance(o, (staticmethod, classmethod)):
+                    cand = [o.__func__]
+                else:
+                    cand = [o]
+                for fn in cand:
+                    code = getattr(fn, "__code__", None)
+                    if isinstance(code, types.CodeType) and \
+                            os.path.realpath(code.co_filename).startswith(prefix):
+                        _walk_code(code, seen)
+    codes = sorted(seen, key=lambda c: (c.co_filename, c.co_firstlineno, c.co_name))
+    _REPO_CODES["prefix"], _REPO_CODES["codes"] = prefix, codes
+    return codes
+
+
+def _on_line(code, line):
+    t = _TASK_OF_THREAD.get(threading.get_ident())
+    if t is not None:
+        t.on_line(code, line)
+
+
+def _on_instruction(code, offset):
+    t = _TASK_OF_THREAD.get(threading.get_ident())
+    if t is not None:
+        t.on_instruction(code, offset)
+
+
+def _monitoring_on(prefix):
+    if not _MON_READY[0]:
+        if _MON.get_tool(_TOOL) is None:
+            _MON.use_tool_id(_TOOL, "verif-dst-threads")
+        _MON.register_callback(_TOOL, _MON.events.LINE, _on_line)
+        _MON.register_callback(_TOOL, _MON.events.INSTRUCTION, _on_instruction)
+        _MON_READY[0] = True
+    ev = _MON.events.LINE | _MON.events.INSTRUCTION
+    for code in _repo_code_objects(prefix):
+        _MON.set_local_events(_TOOL, code, ev)
+
+
+def _monitoring_off(prefix):
+    for code in _repo_code_objects(prefix):
+        _MON.set_local_events(_TOOL, code, 0)
+
+
 class _TaskThread:
     """One task of the graph, executed in its own thread under the scheduler's baton."""
 
@@ -425,24 +512,15 @@ class _TaskThread:
     def _body(self):
         self.go.wait()
         self.go.clear()
-        sys.settrace(self._trace_call)
+        _TASK_OF_THREAD[threading.get_ident()] = self
         try:
             self.value = self.node(self.inputs)
         except BaseException as e:  # delivered to the caller of compute(), as dask does
             self.exc = e
         finally:
-            sys.settrace(None)
+            _TASK_OF_THREAD.pop(threading.get_ident(), None)
             self.finished = True
             self.sim._back.set()
-
-    def _trace_call(self, frame, event, arg):
-        if frame.f_code.co_filename.startswith(self.sim._repo_prefix):
-            # always on: CPython instruments a code object for opcode events the first time a
-            # frame of it asks for them and keeps it instrumented, so switching this per quantum
-            # made event delivery depend on what had run earlier in the process
-            frame.f_trace_opcodes = True
-            return self._trace_line
-        return None
 
     def _yield(self):
         self.preempted += 1
@@ -451,31 +529,29 @@ class _TaskThread:
         self.go.wait()
         self.go.clear()
 
-    def _trace_line(self, frame, event, arg):
-        if event == "opcode":
-            if self.quantum <= -11 and _op_at(frame.f_code, frame.f_lasti) in _STORE_OPS:
-                self.quantum += 1
-                if self.quantum == -10:
-                    self.sim.stats["opcode_preemptions"] = self.sim.stats.get("opcode_preemptions", 0) + 1
-                    self._yield()
-            return self._trace_line
-        if event == "line":
-            last, self.last = self.last, (frame.f_code, frame.f_lineno)
-            if self.quantum <= -10:
-                return self._trace_line  # bytecode hunting: line events do not count
-            if self.quantum < 0:
-                # hunting: count only points that directly follow an attribute / item store
-                if last is not None and last[1] in _store_lines(last[0]):
-                    self.quantum += 1
-                    stop = self.quantum == 0
-                else:
-                    stop = False
-            else:
-                self.quantum -= 1
-                stop = self.quantum <= 0
-            if stop:
+    def on_instruction(self, code, offset):
+        if self.quantum <= -11 and _op_at(code, offset) in _STORE_OPS:
+            self.quantum += 1
+            if self.quantum == -10:
+                self.sim.stats["opcode_preemptions"] = self.sim.stats.get("opcode_preemptions", 0) + 1
                 self._yield()
-        return self._trace_line
+
+    def on_line(self, code, line):
+        last, self.last = self.last, (code, line)
+        if self.quantum <= -10:
+            return  # bytecode hunting: line events do not count
+        if self.quantum < 0:
+            # hunting: count only points that directly follow an attribute / item store
+            if last is not None and last[1] in _store_lines(last[0]):
+                self.quantum += 1
+                stop = self.quantum == 0
+            else:
+                stop = False
+        else:
+            self.quantum -= 1
+            stop = self.quantum <= 0
+        if stop:
+            self._yield()
 
 
 def _key_index(k):
